@@ -16,6 +16,7 @@ from translate import HEADER, TranslateError, _parse
 
 REL = "scrapli/ssh_config.py"
 OUT = "ScrapliModel/Gen/SSHConfigConsts.lean"
+OUT_PARSE = "ScrapliModel/Gen/SSHParseConsts.lean"
 DATA = {}  # filled by generate(); read by tools/props/c16.py
 
 try:
@@ -457,6 +458,83 @@ def _caller_writes(rel, producers=("lookup", "ssh_config_factory")):
     return sorted(set(out))
 
 
+ASCII = [chr(i) for i in range(128)]
+
+
+def _flag_names(fl):
+    return sorted(f.name for f in re.RegexFlag if f.name and f.value & int(fl) and bin(f.value).count("1") == 1 and f.name not in ("UNICODE", "NOFLAG"))
+
+
+def _value_kind(vre):
+    """shape of the value part of an option regex -> Lean VKind term; classes are evaluated on every ASCII character"""
+    if vre == ".*":
+        return ".rest"
+    m = re.fullmatch(r"(\[[^\]]*\])([*+])", vre)
+    if m:
+        try:
+            c = re.compile(m.group(1))
+        except re.error as e:
+            raise TranslateError(f"_parse: value class {vre!r}: {e}")
+        cls = [ch for ch in ASCII if c.fullmatch(ch)]
+        if any(ch in " \t\n\r\x0b\x0c\x1c\x1d\x1e\x1f=" for ch in cls):
+            raise TranslateError(f"_parse: value class {vre!r} accepts a separator character")
+        return f".{'star' if m.group(2) == '*' else 'plus'} [{', '.join(char(ch) for ch in cls)}]"
+    if re.fullmatch(r"[a-z]+(\|[a-z]+)*", vre):
+        return f".alts [{', '.join(chars(a) for a in vre.split('|'))}]"
+    raise TranslateError(f"_parse: value regex {vre!r} is not `.*`, `[class]*`, `[class]+` or an alternation of lower-case words")
+
+
+def _compiled_patterns(tree, cls_name, fn_name):
+    """{variable: (pattern, flags)} of the re.compile assignments in a method"""
+    fn = _fn(_cls(tree, cls_name), fn_name)
+    out = {}
+    for n in ast.walk(fn):
+        if isinstance(n, ast.Assign) and len(n.targets) == 1 and isinstance(n.targets[0], ast.Name) and isinstance(n.value, ast.Call):
+            f = n.value.func
+            if isinstance(f, ast.Attribute) and getattr(f.value, "id", None) == "re" and f.attr == "compile":
+                args = list(n.value.args) + [k.value for k in n.value.keywords if k.arg == "pattern"]
+                flags = [k.value for k in n.value.keywords if k.arg == "flags"]
+                if args and isinstance(args[0], ast.Constant):
+                    fl = eval(compile(ast.Expression(flags[0]), REL, "eval"), {"re": re}) if flags else 0
+                    out[n.targets[0].id] = (args[0].value, int(fl))
+    return out
+
+
+def _parse_consts(tree, kws):
+    cp = _compiled_patterns(tree, "SSHConfig", "_parse")
+    if "host_pattern" not in cp:
+        raise TranslateError("SSHConfig._parse: no host_pattern")
+    kp = _compiled_patterns(tree, "SSHKnownHosts", "_parse")
+    if "host_pattern" not in kp:
+        raise TranslateError("SSHKnownHosts._parse: no host_pattern")
+    khpat, khfl = kp["host_pattern"]
+    # the key type class, BEHAVIOURALLY: the characters c for which `h c k` is a key line
+    try:
+        khre = re.compile(khpat, khfl)
+    except re.error as e:
+        raise TranslateError(f"SSHKnownHosts._parse: {e}")
+    kt_class = [ch for ch in ASCII if not ch.isspace() and khre.fullmatch(f"h {ch} k")]
+    if not kt_class or khre.groups != 3:
+        raise TranslateError(f"SSHKnownHosts._parse: {khpat!r} is not a three-group key line pattern")
+    b = HEADER.format(src=REL)
+    b += "import ScrapliModel.SSHConfigTypes\nnamespace Scrapli.Gen.SSHConfig\nopen Scrapli.SSHConfig\n"
+    b += "/-- SSHConfig._parse: the block-splitting regex and its flags (source text; the model's block splitter is hand-written for exactly this text) -/\n"
+    b += f"def hostBlockPattern : String := {lstr(cp['host_pattern'][0])}\n"
+    b += f"def hostBlockFlags : List String := [{', '.join(lstr(x) for x in _flag_names(cp['host_pattern'][1]))}]\n"
+    b += "/-- Host attribute -> option keyword (lower case) of the regex `^\\s*kw[\\s=]+(value)$` (flags I|M, checked by the translator) -/\n"
+    b += f"def optKeywords : List (String × Str) := [{', '.join(f'({lstr(a)}, {chars(k)})' for k, a, _ in kws)}]\n"
+    b += "/-- Host attribute -> source text of the value part of its regex -/\n"
+    b += f"def optValueRegex : List (String × String) := [{', '.join(f'({lstr(a)}, {lstr(v)})' for _, a, v in kws)}]\n"
+    b += "/-- Host attribute -> shape of the value part, classes evaluated on every ASCII character -/\n"
+    b += f"def optKinds : List (String × VKind) := [{', '.join(f'({lstr(a)}, {_value_kind(v)})' for _, a, v in kws)}]\n"
+    b += "/-- SSHKnownHosts._parse: the line regex, its flags, and the key type class evaluated on every ASCII character -/\n"
+    b += f"def khLinePattern : String := {lstr(khpat)}\n"
+    b += f"def khLineFlags : List String := [{', '.join(lstr(x) for x in _flag_names(khfl))}]\n"
+    b += f"def khTypeClass : List Char := [{', '.join(char(ch) for ch in kt_class)}]\n"
+    b += "end Scrapli.Gen.SSHConfig\n"
+    return b
+
+
 def generate():
     tree = _parse(REL)
     attrs = _host_attrs(tree)
@@ -513,4 +591,4 @@ def generate():
     b += "/-- stores through the (shared, cached) objects ssh_config_factory / lookup hand out, in base_driver.py -/\n"
     b += f"def driverLookupWrites : List String := [{', '.join(lstr(x) for x in drv_writes)}]\n"
     b += "end Scrapli.Gen.SSHConfig\n"
-    return [(OUT, b)]
+    return [(OUT, b), (OUT_PARSE, _parse_consts(tree, kws))]
